@@ -336,6 +336,57 @@ def run(ctx):
         if o["rule"] in ("R14.9",) or (o["rule"] == "R14.5" and "same-cells" in o["key"]):
             ctx._add(o["status"], "R17.10", o["key"], o["desc"] + " [an out-of-range position panics the consumer thread]", o["where"], o["detail"])
 
+    # ---- R17.14 a background loop's stop flag starts in the "keep running" state: the thread leaves its loop when the flag it
+    # polls reads a certain value; the constructor of the type owning the flag must initialise it to the other value, or the
+    # worker ends by itself after its first round
+    from core import closure_captures, peel_identity
+    n_flag = 0
+    for cdef in sorted(spawn_):
+        c = F.fn(cdef)
+        if c is None:
+            continue
+        rets = set(c.return_blocks())
+        for b, t in c.calls():
+            if not t["callee"].endswith("Atomic::<bool>::load"):
+                continue
+            recv = c.op_origin(t["args"][0])
+            cap = [x for x in subexprs(recv) if x[0] == "field" and x[1] == ("env",)]
+            cc = closure_captures(F, cdef)
+            if not cap or not cc or cap[0][2] not in cc[1]:
+                continue
+            src = cc[1][cap[0][2]]
+            flds = [x for x in subexprs(src) if x[0] == "field" and x[1] == ("param", 1)]
+            owner = (cc[0].rec.get("self_ty") or "").split("<")[0]
+            if not flds or not owner:
+                continue
+            fname = flds[0][2]
+            exit_when = set()
+            lres = strip_site(c.origin_call(b, t))
+            for p in ipaths_(F, c, stop=lambda n_: False, depth=1, start=b, ends=rets | {b}):
+                # (leaving in the same round: a path that goes back to receive and leaves later for another reason is not it)
+                if p.blocks and p.blocks[-1] in rets and not any("Receiver::<T>::" in e.generic for e in p.events if e.seq > 1):
+                    for a in p.atoms:
+                        if a[0] == "bool" and strip_site(a[1]) == lres:
+                            exit_when.add(a[2])
+            if len(exit_when) != 1:
+                continue
+            ew = exit_when.pop()
+            inits = []
+            for n2, g in F.fns.items():
+                for bb in sorted(g.live_blocks()):
+                    for st in g.blocks[bb]["stmts"]:
+                        if st["k"] == "assign" and st["rv"]["k"] == "agg" and st["rv"].get("adt") == owner:
+                            v = dict(g.origin_rvalue(st["rv"])[3]).get(fname)
+                            if v is not None:
+                                cs = [x[2][0] for x in subexprs(v) if x[0] == "call" and x[1].endswith("Atomic::<bool>::new") and x[2] and x[2][0][0] == "const"]
+                                inits += [bool(x[1]) for x in cs]
+            if not inits:
+                continue
+            n_flag += 1
+            ctx.check(all(i != ew for i in inits), "R17.14", "%s|stop-flag-starts-running|%s" % (cdef, fname),
+                      "the flag a background loop polls is initialised to the value that keeps the loop running (the loop leaves when it reads %s)" % ew, c.where(b), "initial value(s) %s" % inits)
+    ctx.note("R17.14: %d polled stop flag(s) traced to their initial value" % n_flag)
+
     # ---- R17.13 a background worker that waits forever is as lost as one that panicked: no lock-order cycle (or same-class
     # nested acquisition, e.g. a read lock taken again while held - fatal with a writer waiting) involves code a background
     # thread runs
